@@ -295,18 +295,43 @@ structure VRes where
 
 def VRes.unbounded (v : String) : VRes := ⟨v, false, false, false, none⟩
 
-/-- `LoopAnalysis.get_result`: the three-rung ladder m / w / p over the column of `v`.
-    AssertionError when no rung yields a choice. -/
+/-- the variables with a flow (a monomial `m`, `w` or `p`) into column `col`, other than the
+    column's own variable -/
+def sources (rel : Relation) (col : Nat) : List String :=
+  rel.vars.zipIdx.filterMap fun (u, i) =>
+    if i != col && (Matrix.get rel.mat i col).any (fun m => m.scalar == .m || m.scalar == .w || m.scalar == .p)
+    then some u else none
+
+/-- `Choices.choice_reduce(*c)` for a non-empty argument list -/
+def choiceReduce : List Choices.T → Option Choices.T
+  | [] => none
+  | c :: cs => some (cs.foldl Choices.intersection c)
+
+/-- `LoopAnalysis.get_result`: the three-rung ladder m / w / p over the column of `v`; a choice
+    counts only if it is also valid for every variable that flows into `v`.  No rung: the
+    variable stays without a bound. -/
 def getResult (rel : Relation) (index : Nat) (v : String) : M VRes := do
-  let cm ← rel.varEval Gen.domain index v [.w, .p]
-  if !Choices.infinite cm then pure ⟨v, true, true, true, some cm⟩
-  else
-    let cw ← rel.varEval Gen.domain index v [.p]
-    if !Choices.infinite cw then pure ⟨v, false, true, true, some cw⟩
+  match rel.vars.idxOf? v with
+  | none => throw "ValueError"
+  | some col =>
+    let srcs := sources rel col
+    let valid ← (do
+      let cs ← srcs.mapM (fun u => rel.varEval Gen.domain index u [])
+      pure (choiceReduce cs) : M (Option Choices.T))
+    let rung (scalars : List Scalar) : M Choices.T := do
+      let c ← rel.varEval Gen.domain index v scalars
+      pure (match valid with
+        | some va => if !Choices.infinite c then Choices.intersection c va else c
+        | none => c)
+    let cm ← rung [.w, .p]
+    if !Choices.infinite cm then pure ⟨v, true, true, true, some cm⟩
     else
-      let cp ← rel.varEval Gen.domain index v []
-      if !Choices.infinite cp then pure ⟨v, false, false, true, some cp⟩
-      else throw "AssertionError"
+      let cw ← rung [.p]
+      if !Choices.infinite cw then pure ⟨v, false, true, true, some cw⟩
+      else
+        let cp ← rung []
+        if !Choices.infinite cp then pure ⟨v, false, false, true, some cp⟩
+        else pure (VRes.unbounded v)
 
 /-- `LoopAnalysis.maybe_result`; `pick` is `red.first`, the choice the implementation drew from the
     intersection of the per-variable choice objects (its position in a hash-ordered set is not
